@@ -199,7 +199,7 @@ func rcBinary() (string, string) {
 // ---- generation ---------------------------------------------------------------------------------------------
 
 var rcSkipOps = map[string]bool{"Init": true}
-var rcPartnerPref = []string{"SetContent", "Fill", "RegisterRuneFallback", "UnregisterRuneFallback", "SetTitle", "SetClipboard", "EnableMouse", "EnablePaste", "Sync", "Show", "Suspend"}
+var rcPartnerPref = []string{"SetContent", "Fill", "RegisterRuneFallback", "UnregisterRuneFallback", "SetTitle", "SetClipboard", "EnableMouse", "EnablePaste", "Sync", "Show", "Suspend", "Resume"}
 
 // rcCanRace: entry point p has a concurrent-phase access of field fld that conflicts with the flagged fact x (one of the
 // two writes) and shares no mutex with it — the only accesses x can race with
@@ -237,6 +237,13 @@ func rcConfirmPairs(f *rcFacts) [][4]string { // impl, A, B, charset
 		}
 		groups := map[string][]string{}
 		for fld := range f.flagged[k] {
+			if e == "Fini" && fld == "wg.state" {
+				// Fini runs once per process, and the detector instruments a WaitGroup only at the first Add from zero and the
+				// first blocked Wait: one shot does not reproduce Add-vs-Wait reliably (measured 1 in 8).  The same source
+				// lines are flagged for Suspend (disengage is inlined into both), which repeats and is demanded below; the
+				// `life` lines still run Fini against Resume/Suspend and report whatever the detector sees.
+				continue
+			}
 			g := rcGroup(fld)
 			groups[g] = append(groups[g], fld)
 		}
@@ -251,10 +258,10 @@ func rcConfirmPairs(f *rcFacts) [][4]string { // impl, A, B, charset
 				inGroup[fld] = true
 			}
 			// two instances of the entry point itself race when one of its own accesses conflicts with the flagged one and
-			// shares no mutex with it (the op "Suspend" of the race binary is Suspend;Resume: Resume's accesses count too)
+			// shares no mutex with it
 			selfOK := false
 			for _, x := range f.flagFx[k] {
-				if inGroup[x.field] && (rcCanRace(f, impl, e, x) || (e == "Suspend" && rcCanRace(f, impl, "Resume", x))) {
+				if inGroup[x.field] && rcCanRace(f, impl, e, x) {
 					selfOK = true
 				}
 			}
@@ -336,9 +343,10 @@ func rcGen(g *h.Gen) {
 		life = append(life, [2]string{"Suspend", "PollEvent"}, [2]string{"Suspend", "SetSize"}, [2]string{"Suspend", "EnableMouse"},
 			[2]string{"Fini", "PostEventWait"}, [2]string{"Fini", "Sync"}, [2]string{"InitFini", "Fini"}, [2]string{"Suspend", "ChannelEvents"})
 	}
+	lms := g.N(1200, 2500)
 	for rep := 0; rep < g.N(1, 3); rep++ {
 		for _, p := range life {
-			g.Emit("race life tscreen %s %s cs=UTF-8 ms=%d seed=%d", p[0], p[1], ms, g.R.Intn(1<<30))
+			g.Emit("race life tscreen %s %s cs=UTF-8 ms=%d seed=%d", p[0], p[1], lms, g.R.Intn(1<<30))
 		}
 	}
 	// block check: unlocked tty writers and some locked controls
@@ -552,7 +560,70 @@ func rcFieldsAt(f *rcFacts, impl, e string, line int) map[string][2]bool { // fi
 	return out
 }
 
+// rcRun: a `confirm` line whose flagged entry points were not all reproduced is given two more runs with other seeds
+// (schedules are sampled; the findings of all attempts are kept)
 func rcRun(line string) h.Result {
+	res := rcRunOnce(line, 0)
+	if !strings.Contains(line, " confirm ") || !strings.HasPrefix(res.Obs, "expect") {
+		return res
+	}
+	want := func(r h.Result) int { // number of flagged entry points among A, B still missing
+		f := rcLoad()
+		t := strings.Fields(line)
+		if len(t) < 5 {
+			return 0
+		}
+		miss := 0
+		seen := map[string]bool{}
+		for _, e := range []string{t[3], t[4]} {
+			if seen[e] {
+				continue
+			}
+			seen[e] = true
+			if len(f.flagged[t[2]+"/"+e]) > 0 && !strings.Contains(","+strings.TrimPrefix(r.Obs, "expect ")+",", ","+e+",") {
+				miss++
+			}
+		}
+		return miss
+	}
+	for attempt := 1; attempt <= 2 && want(res) > 0; attempt++ {
+		r2 := rcRunOnce(line, attempt)
+		if !strings.HasPrefix(r2.Obs, "expect") {
+			break
+		}
+		// union of the reproduced entry points (in A, B order) and of the findings (one per class)
+		t := strings.Fields(line)
+		var got []string
+		for _, e := range []string{t[3], t[4]} {
+			in := func(o string) bool { return strings.Contains(","+strings.TrimPrefix(o, "expect ")+",", ","+e+",") }
+			dup := false
+			for _, g := range got {
+				dup = dup || g == e
+			}
+			if !dup && (in(res.Obs) || in(r2.Obs)) {
+				got = append(got, e)
+			}
+		}
+		have := map[string]bool{}
+		for _, fd := range res.Findings {
+			have[fd.Class] = true
+		}
+		for _, fd := range r2.Findings {
+			if !have[fd.Class] {
+				res.Findings = append(res.Findings, fd)
+			}
+		}
+		res.Tags = append(res.Tags, "retried")
+		if len(got) == 0 {
+			res.Obs = "expect -"
+		} else {
+			res.Obs = "expect " + strings.Join(got, ",")
+		}
+	}
+	return res
+}
+
+func rcRunOnce(line string, attempt int) h.Result {
 	f := rcLoad()
 	t := strings.Fields(line)
 	res := h.Result{Obs: "SKIP", Nontrivial: true}
@@ -578,6 +649,7 @@ func rcRun(line string) h.Result {
 	if ms <= 0 || ms > 60000 {
 		ms = 700
 	}
+	seed += attempt * 1000003
 	res.Tags = []string{"kind:" + kind, "impl:" + impl}
 	if f.err != nil {
 		res.Obs = "no-facts"
